@@ -9,9 +9,10 @@
    they are joined by a chain of edges of the subset sharing vertices -- so that
    [loop_number] (sum over classes of 1 + edges - vertices) and the spanning flag (one
    class touches every external vertex, all massive edges present) read as the property
-   states them; (iii) [C03_euler]: L(s) + |V(s)| = |s| + number of components. *)
+   states them; (iii) [C03_euler]: L(s) + |V(s)| = |s| + number of components; (iv) [C03_spanning]: the flag
+   is true exactly when all massive edges are present and one component touches every external vertex. *)
 From Coq Require Import ZArith NArith List QArith Qcanon Permutation.
-From MT Require Import Model.Scalar Model.Graph Model.Table Proofs.Instances Proofs.TableProofs Proofs.Components Proofs.Euler.
+From MT Require Import Model.Scalar Model.Graph Model.Table Proofs.Instances Proofs.TableProofs Proofs.Components Proofs.Euler Proofs.Spanning.
 Import ListNotations.
 Local Open Scope nat_scope.
 
@@ -77,13 +78,24 @@ Proof.
   exact (fun s => loop_number_euler (sub_edges (g_edges g) s)).
 Qed.
 
+(* the spanning flag in the property's words: every massive edge of the graph lies in the subset
+   and one connected component of the subset touches every external vertex *)
+Theorem C03_spanning : forall s : sid,
+  let sub := sub_edges (g_edges g) s in
+  is_mass_momentum_spanning nmassive (g_ext g) sub = true <->
+  (forall p, In p all -> e_massive (snd p) = true -> In p sub) /\ touches_all (g_ext g) sub.
+Proof.
+  exact (fun s => spanning_semantics (g_edges g) (g_ext g) s).
+Qed.
+
 End C03.
 
-Check @C03_globals. Check @C03_entries. Check @C03_components. Check @C03_euler.
+Check @C03_globals. Check @C03_entries. Check @C03_components. Check @C03_euler. Check @C03_spanning.
 Print Assumptions C03_globals.
 Print Assumptions C03_entries.
 Print Assumptions C03_components.
 Print Assumptions C03_euler.
+Print Assumptions C03_spanning.
 
 (* non-vacuity: sunrise with one massive edge over Qc, D = 3; subset {0,1} has one loop,
    is not spanning (misses the massive edge 2), omega = 1 + 1 - 3/2 = 1/2 *)
